@@ -199,21 +199,21 @@ func genC19(g *Rng, tier string, emit func(Op)) {
 	// exhaustive: all a mod p (and a few outside [0,p)) for small primes
 	for _, p := range primes {
 		for a := -2; a < p+3; a++ {
-			emit(Op{"op": "legendre", "class": "exh-prime", "a": hxi(int64(a)), "p": hxi(int64(p))})
+			emit(Op{"ref": true, "op": "legendre", "class": "exh-prime", "a": hxi(int64(a)), "p": hxi(int64(p))})
 			if a >= 0 && a < p && p > 2 {
 				emit(Op{"op": "primesqrt", "class": "exh-prime", "a": hxi(int64(a)), "p": hxi(int64(p))})
 			}
 			if a >= 0 {
-				emit(Op{"op": "modinv", "class": "exh-prime", "a": hxi(int64(a)), "n": hxi(int64(p))})
+				emit(Op{"ref": true, "op": "modinv", "class": "exh-prime", "a": hxi(int64(a)), "n": hxi(int64(p))})
 			}
 		}
 	}
 	// Jacobi symbols for all odd moduli, moduli with even values included to pin the model
 	for m := 1; m < 64; m++ {
 		for a := -3; a < 70; a++ {
-			emit(Op{"op": "legendre", "class": "exh-modulus", "a": hxi(int64(a)), "p": hxi(int64(m))})
-			emit(Op{"op": "modinv", "class": "exh-modulus", "a": hxi(int64(a)), "n": hxi(int64(m))})
-			emit(Op{"op": "bigmodinv", "class": "exh-modulus", "a": hxi(int64(a)), "n": hxi(int64(m))})
+			emit(Op{"ref": true, "op": "legendre", "class": "exh-modulus", "a": hxi(int64(a)), "p": hxi(int64(m))})
+			emit(Op{"ref": true, "op": "modinv", "class": "exh-modulus", "a": hxi(int64(a)), "n": hxi(int64(m))})
+			emit(Op{"ref": true, "op": "bigmodinv", "class": "exh-modulus", "a": hxi(int64(a)), "n": hxi(int64(m))})
 		}
 	}
 	// four squares: all n below the bound
@@ -225,7 +225,7 @@ func genC19(g *Rng, tier string, emit func(Op)) {
 		for c := 1; c < (1 << (b - 1)); c++ {
 			p := int64(1)<<b - int64(c)
 			for _, x := range []int64{-p - 1, -1, 0, 1, p - 1, p, p + 1, 2*p - 1, 2 * p, 1<<b - 1, 1 << b, 1<<b + 1, p * p, p*p + p - 1, 1<<(2*b) - 1} {
-				emit(Op{"op": "fastmod", "class": "exh", "p": hxi(p), "x": hxi(x), "alias": g.intn(3) == 0, "dirty": g.coin()})
+				emit(Op{"ref": true, "op": "fastmod", "class": "exh", "p": hxi(p), "x": hxi(x), "alias": g.intn(3) == 0, "dirty": g.coin()})
 			}
 		}
 	}
@@ -238,7 +238,7 @@ func genC19(g *Rng, tier string, emit func(Op)) {
 	// crt small exhaustive
 	for pa := 1; pa < 14; pa++ {
 		for pb := 1; pb < 14; pb++ {
-			emit(Op{"op": "crt", "class": "exh", "a": hxi(int64(g.intn(pa))), "pa": hxi(int64(pa)), "b": hxi(int64(g.intn(pb))), "pb": hxi(int64(pb))})
+			emit(Op{"ref": true, "op": "crt", "class": "exh", "a": hxi(int64(g.intn(pa))), "pa": hxi(int64(pa)), "b": hxi(int64(g.intn(pb))), "pb": hxi(int64(pb))})
 		}
 	}
 	// random large operands
@@ -249,15 +249,15 @@ func genC19(g *Rng, tier string, emit func(Op)) {
 		q := randPrime(g, min(bits, 600))
 		a := g.bits(bits + g.intn(64))
 		n := g.exactBits(bits)
-		emit(Op{"op": "modinv", "class": "rand", "a": hx(new(big.Int).Mod(a, n)), "n": hx(n)})
-		emit(Op{"op": "bigmodinv", "class": "rand", "a": hx(signed(g, a)), "n": hx(n)})
+		emit(Op{"ref": true, "op": "modinv", "class": "rand", "a": hx(new(big.Int).Mod(a, n)), "n": hx(n)})
+		emit(Op{"ref": true, "op": "bigmodinv", "class": "rand", "a": hx(signed(g, a)), "n": hx(n)})
 		y := g.bits(1 + g.intn(bits))
-		emit(Op{"op": "modpow", "class": "rand", "x": hx(signed(g, a)), "y": hx(signed(g, y)), "m": hx(n)})
-		emit(Op{"op": "legendre", "class": "rand", "a": hx(signed(g, a)), "p": hx(p)})
+		emit(Op{"ref": true, "op": "modpow", "class": "rand", "x": hx(signed(g, a)), "y": hx(signed(g, y)), "m": hx(n)})
+		emit(Op{"ref": true, "op": "legendre", "class": "rand", "a": hx(signed(g, a)), "p": hx(p)})
 		nodd := new(big.Int).SetBit(n, 0, 1)
-		emit(Op{"op": "legendre", "class": "rand-jacobi", "a": hx(a), "p": hx(nodd)})
+		emit(Op{"ref": true, "op": "legendre", "class": "rand-jacobi", "a": hx(a), "p": hx(nodd)})
 		if p.Cmp(q) != 0 {
-			emit(Op{"op": "crt", "class": "rand", "a": hx(g.below(p)), "pa": hx(p), "b": hx(g.below(q)), "pb": hx(q)})
+			emit(Op{"ref": true, "op": "crt", "class": "rand", "a": hx(g.below(p)), "pa": hx(p), "b": hx(g.below(q)), "pb": hx(q)})
 		}
 		if i%4 == 0 {
 			// square and non-square inputs; p = 1 mod 8 exercised by volume and by construction
@@ -303,7 +303,7 @@ func genC19(g *Rng, tier string, emit func(Op)) {
 			pm := new(big.Int).Lsh(bi(1), uint(b))
 			pm.Sub(pm, c)
 			x := g.bits(b * (1 + g.intn(3)))
-			emit(Op{"op": "fastmod", "class": "rand", "p": hx(pm), "x": hx(signed(g, x)), "alias": g.intn(3) == 0, "dirty": g.coin()})
+			emit(Op{"ref": true, "op": "fastmod", "class": "rand", "p": hx(pm), "x": hx(signed(g, x)), "alias": g.intn(3) == 0, "dirty": g.coin()})
 		}
 	}
 	// random primes in range, produced by the real generator
@@ -350,7 +350,7 @@ func genC19(g *Rng, tier string, emit func(Op)) {
 		grp, ok := zkproof.BuildGroup(sp)
 		if ok {
 			for _, e := range []*big.Int{bi(0), bi(1), bi(-1), new(big.Int).Neg(g.below(grp.Order)), g.below(grp.Order), new(big.Int).Set(grp.Order), new(big.Int).Neg(grp.Order), new(big.Int).Sub(grp.Order, bi(1))} {
-				emit(Op{"op": "groupexp", "class": "fold", "p": hx(sp), "base": hx(grp.G), "order": hx(grp.Order), "exp": hx(e)})
+				emit(Op{"ref": true, "op": "groupexp", "class": "fold", "p": hx(sp), "base": hx(grp.G), "order": hx(grp.Order), "exp": hx(e)})
 			}
 		}
 	}
